@@ -28,9 +28,20 @@ def make_accel_case(spec, rnd):
                        density=rnd.choice([0.7, 0.9, 1.0]))
 
 
+VARIANTS = ["generic", "generic", "merger-static", "generic", "part", "generic", "lf-shared",
+            "generic", "merger-dynamic", "generic", "part", "lf-affine"]
+
+
 def gen_item(pid, seed, shard, i, **kw):
+    """Family chosen by index, so that every family occurs a fixed number of times whatever
+    the seed (a family that never COMPILES then makes the check inconclusive)."""
     rnd = random.Random("%s-%d-%d-%d" % (pid, seed, shard, i))
-    return GA.gen_metrics(rnd, **kw), rnd
+    v = VARIANTS[(i + shard) % len(VARIANTS)]
+    if v != "generic" and "n_einsums" in kw and kw["n_einsums"] not in (None, 1, 2):
+        v = "generic"
+    if v == "generic":
+        return GA.gen_metrics(rnd, force="generic", **kw), rnd
+    return GA.gen_metrics(rnd, force=v), rnd
 
 
 def refusal(compiled):
